@@ -342,17 +342,24 @@ ARITH_THEOREMS = {"C08": ["Ru.Gen_blocksRange_spec", "Ru.C08_blocks_gen_eq_page"
                           "Ru.Gen_verifyBlockGuards_spec", "Ru.C01_verifyBlock_reward_gen"],
                   "C04": ["Ru.Gen_addBlockGuards_spec", "Ru.C04_addBlock_gen", "Ru.Gen_verifyBlockGuards_spec", "Ru.C04_verifyBlock_gen",
                           "Ru.C04_verifyTxs_window_gen"],
+                  "C06": ["Ru.Gen_updateGuards_spec", "Ru.C06_isFork_gen", "Ru.C06_majority_gen", "Ru.C06_longest_gen", "Ru.C06_minmax_gen",
+                          "Ru.C06_isDifferent_gen"],
                   "C11": ["Ru.Gen_addTransactionGuards_spec", "Ru.C11_admitCheck_gen", "Ru.Gen_validateGuards_spec",
                           "Ru.C11_produce_refusals_gen", "Ru.C11_produceLoop_window_gen"]}
 ARITH_MODULE = {"C08": ["Core.Props.C08gen"], "C14": ["Core.Props.C08gen"], "C01": ["Core.Props.C01gen", "Core.Props.Cguards"],
-                "C04": ["Core.Props.Cguards"], "C11": ["Core.Props.Cguards"]}
+                "C04": ["Core.Props.Cguards"], "C11": ["Core.Props.Cguards11"], "C06": ["Core.Props.C06guards"]}
+# the translation units (sections of ruextract-arith) each property's theorems are about: an untranslatable construct in
+# another unit does not concern the property
+ARITH_SECTIONS = {"C08": ["blocks"], "C14": ["blocks"], "C01": ["fee", "guards:verifyBlock"], "C04": ["guards:AddBlock", "guards:verifyBlock"],
+                  "C11": ["guards:addTransaction", "guards:Validate"], "C06": ["guards:Update"]}
 ARITH_WHAT = {"C08": "(*Blockchain).Blocks", "C14": "(*Blockchain).Blocks",
               "C01": "(*UtxosRegistry).CalculateFee and the reward guard of (*Blockchain).verifyBlock",
               "C04": "the date guards of (*Blockchain).AddBlock and (*Blockchain).verifyBlock",
-              "C11": "the date guards of (*TransactionsPool).addTransaction and (*TransactionsPool).Validate"}
+              "C11": "the date guards of (*TransactionsPool).addTransaction and (*TransactionsPool).Validate",
+              "C06": "the fork-choice conditions of (*Blockchain).Update"}
 ARITH_SRC = {"C08": ["verification/blockchain.go"], "C14": ["verification/blockchain.go"],
              "C01": ["verification/utxos_registry.go", "verification/blockchain.go"], "C04": ["verification/blockchain.go"],
-             "C11": ["validation/transactions_pool.go"]}
+             "C11": ["validation/transactions_pool.go"], "C06": ["verification/blockchain.go"]}
 
 
 def arith_tie(prop):
@@ -375,7 +382,12 @@ def arith_tie(prop):
     with flock("regen-core-arith"):
         committed = gen.read_text() if gen.exists() else ""
         rc, out, err = run([str(binary), "--repo", str(REPO)], timeout=60)
-        text = out if rc == 0 else None
+        sec_errs = [l.split("SECTION-ERROR ", 1)[1] for l in err.splitlines() if "SECTION-ERROR " in l]
+        mine = [e for e in sec_errs if e.split(":", 1)[0] in ARITH_SECTIONS[prop] or
+                any(e.startswith(x + ":") for x in ARITH_SECTIONS[prop])]
+        text = out if rc == 0 and not mine else None
+        if mine:
+            err = "\n".join(mine)
         generated = {"file": "lean/core/Core/GenBlocks.lean", "from": ", ".join(str(x) for x in srcs),
                      "source_sha256": hashlib.sha256(b"".join(x.read_bytes() for x in srcs if x.exists())).hexdigest(),
                      "translator": "harness/cmd/ruextract-arith", "regenerated_this_run": text is not None,
@@ -416,7 +428,7 @@ def arith_tie(prop):
             obligations.append({"name": f"theorems of {mod} over the arithmetic of {what} regenerated from the source", "ok": allok})
             if not allok:
                 failures.append(failure(
-                    "proof", f"{prop}/theorem/arith/" + {"C01": "Gen.fee", "C04": "Gen.guards", "C11": "Gen.guards"}.get(prop, "Gen.blocksRange"),
+                    "proof", f"{prop}/theorem/arith/" + {"C01": "Gen.fee", "C04": "Gen.guards", "C11": "Gen.guards", "C06": "Gen.updateGuards"}.get(prop, "Gen.blocksRange"),
                     f"the theorems of {mod} no longer check over the arithmetic of {what} regenerated from the current "
                     f"{', '.join(x.name for x in srcs)}:\n" + text[-2600:] + "\n" + (blog[-1200:] if not okb else ""),
                     {"no_longer_checks": ARITH_THEOREMS[prop], "generated": text, "build_log": blog[-3000:] if not okb else ""}, False))
